@@ -14,8 +14,9 @@ import (
 )
 
 type conn struct {
-	cols []string
-	data [][]any
+	cols   []string
+	data   [][]any
+	failAt int // >= 0: fetching row number failAt fails (the connection broke mid-result)
 }
 
 type connector struct{ c *conn }
@@ -45,6 +46,9 @@ type rows struct {
 func (r *rows) Columns() []string { return r.c.cols }
 func (r *rows) Close() error      { return nil }
 func (r *rows) Next(dest []driver.Value) error {
+	if r.c.failAt >= 0 && r.pos == r.c.failAt {
+		return io.ErrUnexpectedEOF
+	}
 	if r.pos >= len(r.c.data) {
 		return io.EOF
 	}
@@ -56,8 +60,12 @@ func (r *rows) Next(dest []driver.Value) error {
 }
 
 // Rows returns a result set with the given columns and rows (each row one value per column).
-func Rows(cols []string, data [][]any) *sql.Rows {
-	db := sql.OpenDB(connector{&conn{cols: cols, data: data}})
+func Rows(cols []string, data [][]any) *sql.Rows { return RowsFailingAt(cols, data, -1) }
+
+// RowsFailingAt is Rows whose fetch of row number failAt (0-based; len(data) = after the last row) fails:
+// Next returns false there and Err reports the failure. failAt < 0: never fails.
+func RowsFailingAt(cols []string, data [][]any, failAt int) *sql.Rows {
+	db := sql.OpenDB(connector{&conn{cols: cols, data: data, failAt: failAt}})
 	rs, err := db.QueryContext(context.Background(), "scripted")
 	if err != nil {
 		panic(err)
